@@ -327,6 +327,25 @@ def run(tier, mode):
             if isinstance(d, H.Exn) or any(x.parse_complete != want for x in d):
                 fail('precedence', {'class': 'PLSSDesc.parse', 'setting': 'parse_qq', 'keyword': pq_kw, 'config': conf},
                      d if isinstance(d, H.Exn) else [x.parse_complete for x in d], want)
+    # a Config object given to several objects: a keyword passed to one object's parse() must not change what the
+    # same Config means for the next object (its text, and the parse of a second object built from it)
+    for a in ['clean_qq', 'break_halves', 'qq_depth', 'qq_depth_min', 'parse_qq', 'ocr_scrub', 'suppress_lot_divs']:
+        for v in domain(a):
+            for base in ['parse_qq', 'parse_qq,qq_depth_max.3', '']:
+                rec.reset()
+                c = H.call(Config, base)
+                if isinstance(c, H.Exn):
+                    continue
+                before = c.decompile_to_text()
+                ref = H.call(lambda: [(t.trs, t.desc, t.pp_desc, t.lots, t.qqs) for t in pytrs.PLSSDesc(TEXT, config=base).tracts])
+                e = H.call(lambda: pytrs.PLSSDesc(TEXT, config=c).parse(commit=False, **({a: v} if a in PD_KW else {})))
+                e2 = H.call(lambda: pytrs.Tract('NE, N/2SW/4, Lot 1', trs='154n97w14', config=c).parse(commit=False, **({a: v} if a in TR_KW else {})))
+                after = c.decompile_to_text()
+                got = H.call(lambda: [(t.trs, t.desc, t.pp_desc, t.lots, t.qqs) for t in pytrs.PLSSDesc(TEXT, config=c).tracts])
+                n_or += 2
+                bump('shared_config')
+                if isinstance(e, H.Exn) or isinstance(e2, H.Exn) or before != after or got != ref:
+                    fail('shared_config_changed', {'setting': a, 'value': v, 'config': base}, [after, got if isinstance(got, H.Exn) else got[:2]], [before, ref if isinstance(ref, H.Exn) else ref[:2]])
     parts = {}
     if cases:
         parts['model_vs_code'] = H.diff_cases(cases)
